@@ -355,6 +355,79 @@ func runC08(c *Collector, r *Rng, thorough bool) {
 				}
 			}
 		}
+		// ---- countersignatures over parents (and by holders) whose protected bucket was supplied as bytes another
+		// encoder produced: the parent's protected bytes inside the Countersign_structure are the bytes the parent
+		// emits, and the holder's are the bytes the holder emits ----
+		if i%2 == 1 {
+			mkRaw := func() []byte {
+				pm := wMap(-1, wInt(1, -1), wInt(int64(alg), -1), wInt(4, -1), wBstr(r.Bytes(1+r.Intn(30)), -1))
+				if r.Bool() {
+					pm.RandWidths(r, 1, 2, nil)
+				}
+				pm.ShuffleMaps(r)
+				pb := wBstr(pm.Ser(), -1)
+				ws := widthsFor(uint64(len(pb.Str)))
+				pb.Width = ws[r.Intn(len(ws))]
+				return pb.Ser()
+			}
+			for _, pk := range []string{"COSE_Sign1", "COSE_Sign", "COSE_Signature", "COSE_Countersignature"} {
+				praw, hraw := mkRaw(), mkRaw()
+				ext := genGoExternal(r)
+				var parent any
+				var emit func() ([]byte, error)
+				switch pk {
+				case "COSE_Sign1":
+					m := &cose.Sign1Message{Headers: cose.Headers{RawProtected: praw}, Payload: []byte("p"), Signature: []byte{1, 2}}
+					parent, emit = m, m.MarshalCBOR
+				case "COSE_Sign":
+					m := &cose.SignMessage{Headers: cose.Headers{RawProtected: praw}, Payload: []byte("p"), Signatures: []*cose.Signature{{Headers: cose.Headers{Protected: cose.ProtectedHeader{cose.HeaderLabelAlgorithm: alg}}, Signature: []byte{3}}}}
+					parent, emit = m, m.MarshalCBOR
+				case "COSE_Signature":
+					m := &cose.Signature{Headers: cose.Headers{RawProtected: praw}, Signature: []byte{1, 2}}
+					parent, emit = m, m.MarshalCBOR
+				default:
+					m := &cose.Countersignature{Headers: cose.Headers{RawProtected: praw}, Signature: []byte{1, 2}}
+					parent, emit = m, m.MarshalCBOR
+				}
+				for _, holderRaw := range []bool{false, true} {
+					holder := &cose.Countersignature{Headers: cose.Headers{Protected: cose.ProtectedHeader{cose.HeaderLabelAlgorithm: alg}}}
+					if holderRaw {
+						holder = &cose.Countersignature{Headers: cose.Headers{RawProtected: hraw}}
+					}
+					sg := &spySigner{alg: alg, kind: SOk, sig: genSigBytes(r)}
+					rep := map[string]any{"parent": pk, "parent_raw_protected": hx(praw), "holder_raw": holderRaw, "alg": alg.String()}
+					c.Eval("countersign-raw-protected/"+pk, hx(praw)+fmt.Sprint(holderRaw), true)
+					if err := holder.Sign(r, sg, parent, ext); err != nil || len(sg.calls) != 1 {
+						continue
+					}
+					vf := &spyVerifier{alg: alg}
+					holder.Verify(vf, parent, ext)
+					po, e1 := emit()
+					ho, e2 := holder.MarshalCBOR()
+					if e1 != nil || e2 != nil {
+						continue
+					}
+					pw, pe := refParseFull(po)
+					hw, he := refParseFull(ho)
+					if pe != nil || he != nil {
+						continue
+					}
+					if pw.Maj == 6 {
+						pw = pw.Kids[0]
+					}
+					for _, t := range append(append([][]byte{}, sg.calls...), vcontents(vf)...) {
+						if el, err := refParseFull(tbsElement(t, 1)); err != nil || !bytes.Equal(el.Str, pw.Kids[0].Str) {
+							c.Fail("C08/signed-vs-emitted", fmt.Sprintf("countersignature over a %s: the parent's protected bucket on the wire is %x, inside the countersigned bytes it is %x", pk, pw.Kids[0].Str, tbsElement(t, 1)), rep)
+							break
+						}
+						if el, err := refParseFull(tbsElement(t, 2)); err != nil || !bytes.Equal(el.Str, hw.Kids[0].Str) {
+							c.Fail("C08/signed-vs-emitted", fmt.Sprintf("countersignature over a %s: the holder's protected bucket on the wire is %x, inside the countersigned bytes it is %x", pk, hw.Kids[0].Str, tbsElement(t, 2)), rep)
+							break
+						}
+					}
+				}
+			}
+		}
 		// ---- SignHashEnvelope: whatever the caller's Headers carry (typed maps, stale raw bytes of a message it
 		// decoded earlier), the returned envelope is accepted by VerifyHashEnvelope and says what was asked for ----
 		if i%3 == 0 {
@@ -462,6 +535,7 @@ func runC08(c *Collector, r *Rng, thorough bool) {
 			}
 		}
 	}
+	c08Keys(c)
 }
 
 func genGoPayloadNonNil(r *Rng) []byte {
@@ -1128,4 +1202,87 @@ func nilOrHex(b []byte) string {
 		return "nil"
 	}
 	return "h'" + hx(b) + "'"
+}
+
+// c08Keys: EC2 / OKP keys built in memory with every combination of absent, empty, short, full-width and boolean (sign
+// bit of a compressed point) coordinates: the serialisation carries the parameters the key has and no others - nothing
+// absent is invented, a boolean stays a boolean, given octets stay the low-order octets of what is written.
+func c08Keys(c *Collector) {
+	type cv struct {
+		name string
+		v    any
+		has  bool
+	}
+	coord := func(size int) []cv {
+		full := bytes.Repeat([]byte{0x5a}, size)
+		return []cv{{"absent", nil, false}, {"empty", []byte{}, true}, {"short", []byte{1, 2, 3, 4, 5}, true}, {"full", full, true}, {"true", true, true}, {"false", false, true}}
+	}
+	for _, crv := range []struct {
+		id   int64
+		size int
+		kty  cose.KeyType
+	}{{1, 32, cose.KeyTypeEC2}, {2, 48, cose.KeyTypeEC2}, {3, 66, cose.KeyTypeEC2}, {9, 32, cose.KeyTypeEC2}, {6, 32, cose.KeyTypeOKP}} {
+		for _, x := range coord(crv.size) {
+			for _, y := range coord(crv.size) {
+				for _, d := range coord(crv.size)[:3] {
+					if crv.kty == cose.KeyTypeOKP && y.has {
+						continue
+					}
+					params := map[any]any{int64(-1): cose.Curve(crv.id)}
+					given := map[int64]any{}
+					for lbl, cvv := range map[int64]cv{-2: x, -3: y, -4: d} {
+						if cvv.has {
+							params[lbl] = cvv.v
+							given[lbl] = cvv.v
+						}
+					}
+					k := cose.Key{Type: crv.kty, Params: params}
+					op, obs, out, err, p := execEncKey(&k)
+					c08Check(c, "enc/key-coordinates", op, obs, out, err, p, "DKey", func() ([]byte, error) { return k.MarshalCBOR() }, 1, false)
+					if err != nil || p {
+						continue
+					}
+					rep := map[string]any{"crv": crv.id, "x": x.name, "y": y.name, "d": d.name, "out": hx(out)}
+					w, perr := refParseFull(out)
+					if perr != nil || w.Maj != 5 {
+						continue
+					}
+					seen := map[int64]*W{}
+					for j := 0; j+1 < len(w.Kids); j += 2 {
+						kk := w.Kids[j]
+						var lbl int64
+						switch kk.Maj {
+						case 0:
+							lbl = int64(kk.Val)
+						case 1:
+							lbl = -1 - int64(kk.Val)
+						default:
+							continue
+						}
+						seen[lbl] = w.Kids[j+1]
+					}
+					for _, lbl := range []int64{-2, -3, -4} {
+						gv, has := given[lbl]
+						wv, onWire := seen[lbl]
+						switch {
+						case !has && onWire:
+							c.Fail("C08/key-parameter-invented", fmt.Sprintf("the key has no parameter %d; its serialisation carries one (%x)", lbl, wv.Ser()), rep)
+						case has && !onWire:
+							c.Fail("C08/key-parameter-dropped", fmt.Sprintf("the key has parameter %d; its serialisation has none", lbl), rep)
+						case has && onWire:
+							if b, isBool := gv.(bool); isBool {
+								if wv.Maj != 7 || (b && wv.Val != 21) || (!b && wv.Val != 20) {
+									c.Fail("C08/key-parameter-changed", fmt.Sprintf("parameter %d is the boolean %v; its serialisation carries %x", lbl, b, wv.Ser()), rep)
+								}
+							} else if gb, isBytes := gv.([]byte); isBytes {
+								if wv.Maj != 2 || !bytes.HasSuffix(wv.Str, gb) || len(bytes.Trim(wv.Str[:len(wv.Str)-len(gb)], "\x00")) != 0 {
+									c.Fail("C08/key-parameter-changed", fmt.Sprintf("parameter %d is %x; its serialisation carries %x", lbl, gb, wv.Ser()), rep)
+								}
+							}
+						}
+					}
+				}
+			}
+		}
+	}
 }
